@@ -2,7 +2,7 @@
    both generic wire values (Base/Sx.v).  A request is (op arg ...). *)
 From Coq Require Import ZArith List Bool.
 From Mistletoe Require Import Base.Sx Base.PyStr Model.SpanTokenizer Model.Tree Model.TreeWire
-  Model.HtmlRenderer Spec.HtmlSpec Model.LatexRenderer Spec.LatexSpec Model.Contrib Model.DocLines Model.MarkdownRenderer.
+  Model.HtmlRenderer Spec.HtmlSpec Model.LatexRenderer Spec.LatexSpec Model.Contrib Model.DocLines Model.MarkdownRenderer Re.ReMatch Gen.GenRegex Gen.GenConfig Model.CoreTokens Model.Inline Model.Unescape Model.Block Model.Build Model.Parser.
 Import ListNotations.
 Local Open Scope Z_scope.
 
@@ -99,6 +99,57 @@ Definition op_prefix (req : sx) : sx :=
   SxL (map sx_of_str (prefix_lines (map str_of_sx (l_of_sx (sx_nth req 1))) (str_of_sx (sx_nth req 2))
                                    (match sx_nth req 3 with SxL [q] => Some (str_of_sx q) | _ => None end))).
 
+(* ---- X-re : (30 pattern_index mode ngroups text) ---- *)
+Definition sx_of_match (ng : nat) (p : mst * mst) : sx :=
+  SxL (SxZ (pos (fst p)) :: SxZ (pos (snd p)) ::
+       map (fun i => match group_span (snd p) i with
+                     | Some (a, b) => SxL [SxZ a; SxZ b]
+                     | None => SxL [SxZ (-1); SxZ (-1)]
+                     end) (seq 1 ng)).
+Definition op_re (req : sx) : sx :=
+  let text := str_of_sx (sx_nth req 4) in
+  let ng := Z.to_nat (z_of_sx (sx_nth req 3)) in
+  match nth_error all_patterns (Z.to_nat (z_of_sx (sx_nth req 1))) with
+  | None => SxL [SxZ (-1)]
+  | Some (r, fl) =>
+    let s0 := start_at [] text in
+    match z_of_sx (sx_nth req 2) with
+    | 0 => SxL (map (sx_of_match ng) (finditer fl r text))
+    | 1 => match match_here fl r s0 with Some s1 => SxL [sx_of_match ng (s0, s1)] | None => SxL [] end
+    | 2 => match fullmatch_here fl r s0 with Some s1 => SxL [sx_of_match ng (s0, s1)] | None => SxL [] end
+    | _ => match search fl r s0 with Some p => SxL [sx_of_match ng p] | None => SxL [] end
+    end
+  end.
+
+(* ---- X-inline : (31 config ((label dest title) ...) text) ---- *)
+Definition span_cfg (z : Z) : list span_kind :=
+  match z with
+  | 0 => span_types_html | 1 => span_types_html_nohtml | 2 => span_types_markdown | 3 => span_types_latex
+  | 4 => span_types_mathjax | _ => span_types_default
+  end.
+Definition fn_of_sx (x : sx) : footnotes :=
+  map (fun e => (str_of_sx (sx_nth e 0), (str_of_sx (sx_nth e 1), str_of_sx (sx_nth e 2)))) (l_of_sx x).
+Definition op_inline (req : sx) : sx :=
+  SxL (map sx_of_tok (tokenize_inner (span_cfg (z_of_sx (sx_nth req 1))) (fn_of_sx (sx_nth req 2)) (str_of_sx (sx_nth req 3)))).
+Definition op_unescape (req : sx) : sx :=
+  sx_of_str (match z_of_sx (sx_nth req 1) with
+             | 0 => unescape (str_of_sx (sx_nth req 2))
+             | 1 => escape_strip (str_of_sx (sx_nth req 2))
+             | _ => normalize_label (str_of_sx (sx_nth req 2))
+             end).
+
+(* ---- X-doc : (40 cfg text) -> (tree ((key dest title) ...) (line numbers)) ; (41 cfg dq sq text) -> html ---- *)
+Definition pcfg_of (z : Z) : pconfig :=
+  match z with 0 => cfg_html | 1 => cfg_html_nohtml | 2 => cfg_markdown | 3 => cfg_latex | 4 => cfg_mathjax | _ => cfg_default end.
+Definition op_doc (req : sx) : sx :=
+  let '(t, fn, ls) := parse_document (pcfg_of (z_of_sx (sx_nth req 1))) (str_of_sx (sx_nth req 2)) in
+  SxL [sx_of_tok t;
+       SxL (map (fun e => SxL [sx_of_str (fst e); sx_of_str (fst (snd e)); sx_of_str (snd (snd e))]) fn);
+       SxL (map SxZ ls)].
+Definition op_markdown_html (req : sx) : sx :=
+  sx_of_str (markdown_html (mkHopts (bool_of_sx (sx_nth req 2)) (bool_of_sx (sx_nth req 3)))
+                           (negb (Z.eqb (z_of_sx (sx_nth req 1)) 1)) (str_of_sx (sx_nth req 4))).
+
 Definition dispatch (req : sx) : sx :=
   match z_of_sx (sx_nth req 0) with
   | 16 => op_tokenize req
@@ -106,6 +157,11 @@ Definition dispatch (req : sx) : sx :=
   | 80 => op_str req
   | 81 => op_check_html req
   | 17 => op_latex req
+  | 30 => op_re req
+  | 40 => op_doc req
+  | 41 => op_markdown_html req
+  | 31 => op_inline req
+  | 32 => op_unescape req
   | 9 => op_md req
   | 10 => op_wrap req
   | 101 => op_prefix req
